@@ -136,7 +136,7 @@ prop("C10",
      nontrivial=lambda s, r: any(e["e"] == "ret" and e["n"] in ("close", "deletePeer") for e in syscheck.events_of(r)),
      end_oracles={"leak", "unclosed", "overlap"},
      rule="Close / DeletePeer issued at every quiescent prefix of connection scripts (all FSM states, both directions, collision, "
-          "damping, active writers); oracles: TLC trace validation, race detector, goroutine-leak and unclosed-connection checks at "
+          "damping, active writers), racing with callbacks / the PM / an FSM held at gates, listener errors, blocked Cease writes; oracles: TLC trace validation, race detector, goroutine-leak and unclosed-connection checks at "
           "the end of every script; non-trivial = a Close or DeletePeer returned in the trace")
 
 prop("C12",
@@ -170,7 +170,8 @@ prop("C06",
      ([mc_timed(12, 2, 3, False, ("open9", "open0", "ka", "upd")),
        mc_timed(8, 1, 3, False, ("open3", "ka", "upd"), stall=True)] if tier == "thorough" else []),
      nontrivial=lambda s, r: has_cb(r, "OnOpenMessage"),
-     rule="(local, remote) hold-time grid x traffic patterns (silent, KEEPALIVE-only, UPDATE-only, late, local writes); every "
+     rule="(local, remote) hold-time grid x traffic patterns (silent, KEEPALIVE-only, UPDATE-only with and without a handler, late, "
+          "slow KEEPALIVE, local writes), second sessions, slow callbacks, blocked writes (back-pressure); every "
           "KEEPALIVE and Hold Timer Expired NOTIFICATION must carry exactly the specified virtual timestamp")
 
 prop("C04",
@@ -178,7 +179,8 @@ prop("C04",
      mc=lambda tier: [mc_pair(["openLo", "ka", "upd"], conns=1, msgs=3)] +
      ([mc_timed(8, 1, 3, False, ("open3", "ka", "upd"), stall=True)] if tier == "thorough" else [mc_timed(5, 1, 3, False, ("open3", "ka"), stall=True)]),
      nontrivial=lambda s, r: any(e["e"] == "ret" and e["n"] in ("write", "writeCb") for e in syscheck.events_of(r)),
-     rule="WriteUpdate from callbacks and from application goroutines x body lengths {0,1,4077} x keepalive collisions x "
+     rule="WriteUpdate from callbacks and from application goroutines x body lengths {0,1,4077} x keepalive collisions x remote "
+          "that stops reading (writes of every kind blocked, then completed / reset / closed under them) x "
           "teardown kinds x stale writers; every conn.Write must be exactly one well-formed frame")
 
 prop("C03",
